@@ -23,7 +23,7 @@ static inline int sv_key_class(sv k) { if (k.id == 0) return -1; return k.id == 
   extern struct umap_##M##_pair g_umap_other_##M; \
   static inline struct umap_##M##_pair *umap_##M##_find(struct umap_##M *m, sv key) { \
     int c = sv_key_class(key); \
-    if (c == 1 || (c == -1 && nondet_bool())) return m->has ? &m->slot : (struct umap_##M##_pair *)0; \
+    if (c == 1 || (c == -1 && nondet_bool())) return (m->has != 0) ? &m->slot : (struct umap_##M##_pair *)0; \
     if (nondet_bool()) { __CPROVER_assume(UMAP_OTHER_OK(M, (&g_umap_other_##M))); return &g_umap_other_##M; } \
     return (struct umap_##M##_pair *)0; } \
   static inline V *umap_##M##_index(struct umap_##M *m, sv key) { \
